@@ -46,8 +46,11 @@ func WithHistogramDataPointStatistics(values []float64) func(HistogramDataPoint)
 		if len(values) == 0 { // a persisted timer that received nothing this interval
 			return
 		}
-		hdp.raw.Min = &values[0]
-		hdp.raw.Max = &values[len(values)-1]
+		// Min and max are accumulated in their own variables: pointing them into values would overwrite
+		// the first and last element while they are still to be summed (and modify the caller's slice).
+		lowest, highest := values[0], values[len(values)-1]
+		hdp.raw.Min = &lowest
+		hdp.raw.Max = &highest
 		hdp.raw.Count = uint64(len(values))
 
 		for _, v := range values {
